@@ -183,6 +183,36 @@ def repetition_cases():
         body = ['\tdb A'] + ['\tshift', '\tdb A'] * n
         exp = ['\tdb %s' % args[i] for i in range(n + 1)]
         yield pair(['m\tmacro A,B,C,D'] + body + ['\tendm', '\tm ' + ','.join(args)], exp, 'shift')
+    # SHIFT with F formal parameters and N arguments, K times: the values move up by one each time (a parameter beyond the end
+    # of the list becomes empty), ARGCOUNT counts the arguments that are left, ALLARGS lists them
+    for F in (1, 2, 3):
+        for N in range(0, 5):
+            for K in range(0, 4):
+                args = [str(21 + i) for i in range(N)]
+                names = ['P%d' % i for i in range(F)]
+                body, exp = [], []
+                left = list(args)
+                for k in range(K + 1):
+                    # (ALLARGS after a SHIFT is compared only when every parameter got an argument: whether the defaults of
+                    # parameters without argument then count as arguments is not defined by the manual)
+                    alla = k == 0 or N >= F
+                    body += ['\tdb ARGCOUNT', '\tdb 100,' + ','.join('%s+0' % x for x in names)] + (['\tdb 101,ALLARGS+0'] if alla else [])
+                    vals = [(left[i] if i < len(left) else '') for i in range(F)]
+                    exp += ['\tdb %d' % len(left), '\tdb 100,' + ','.join('%s+0' % v for v in vals)] + (['\tdb 101,' + ','.join(left) + '+0'] if alla else [])
+                    if k < K:
+                        body.append('\tshift')
+                        left = left[1:]
+                yield pair(['m\tmacro ' + ','.join(names)] + body + ['\tendm', '\tm ' + ','.join(args), '\tdb 9'], exp + ['\tdb 9'], 'shift/formals-vs-arguments')
+    # a construct without body lines (or with zero repetitions) inside a macro body must leave the macro's local labels private
+    for empty, tag in ((['e\tmacro', '\tendm'], 'macro'), ([], 'rept0'), ([], 'rept-empty'), ([], 'irp-empty'), ([], 'while0')):
+        call = {'macro': ['\te'], 'rept0': ['\trept 0', '\tdb 5', '\tendm'], 'rept-empty': ['\trept 2', '\tendm'], 'irp-empty': ['\tirp Q,1,2', '\tendm'],
+                'while0': ['\twhile 0', '\tdb 5', '\tendm']}[tag]
+        for pos in (0, 1):
+            inner = ['lab:\tdb 1', '\tdw lab']
+            b = call + inner if pos == 0 else inner + call + ['lab2:\tdb 2', '\tdw lab2']
+            h1 = ['l1:\tdb 1', '\tdw l1'] + (['l1b:\tdb 2', '\tdw l1b'] if pos else [])
+            h2 = ['l2:\tdb 1', '\tdw l2'] + (['l2b:\tdb 2', '\tdw l2b'] if pos else [])
+            yield pair(empty + ['o\tmacro'] + b + ['\tendm', '\to', '\to', '\tdb 9'], h1 + h2 + ['\tdb 9'], 'empty-body-inside-macro/' + tag)
     # SHIFT inside a repetition nested in the macro body acts on the macro's arguments
     yield pair(['m\tmacro A,B,C', '\tdb A', '\trept 1', '\tshift', '\tendm', '\tdb A', '\tendm', '\tm 1,2,3'], ['\tdb 1', '\tdb 2'], 'shift/in-rept')
     yield pair(['m\tmacro A,B,C', '\tif 1', '\tshift', '\tendif', '\tdb A', '\tendm', '\tm 1,2,3'], ['\tdb 2'], 'shift/in-if')
@@ -266,6 +296,12 @@ def binclude_cases():
 
 def sideeffect_cases():
     S = [
+        # predefined symbols changed in a body are read after it
+        (['\tcpu z80'], 'cpu-then-momcpu', ['\tdw MOMCPU']),
+        (['\tcpu 8085'], 'cpu-then-momcpuname', ['\tdb MOMCPUNAME']),
+        (['\tcpu 68000', '\tpadding off', '\tpadding on', '\tpadding off'], 'flag-thrice-then-read', ['\tdc.b PADDING']),
+        (['\tlisting off', '\tlisting on'], 'listing-twice-then-read', ['\tdb LISTON']),
+        (['\tlisting off'], 'listing-off-then-read', ['\tdb LISTON']),
         (['\tcpu z80', '\tdb 1', '\tcpu 8080', '\tdb 2'], 'cpu-twice'),
         (['\tcpu 8085', '\tdb 1'], 'cpu-once'),
         (['\torg 100h', '\tdb 1'], 'org'),
@@ -274,10 +310,12 @@ def sideeffect_cases():
         (['\tsave', '\tcpu z80', '\tdb 1', '\trestore', '\tdb 2'], 'save-restore'),
         (['\tradix 16', '\tdb 10', '\tradix 10', '\tdb 10'], 'radix'),
     ]
-    for body, tag in S:
+    for ent in S:
+        body, tag = ent[0], ent[1]
+        tail = (ent[2] if len(ent) > 2 else []) + ['\tdb 9']
         hb = [l.replace('pl:', 'plh:').replace('dw pl', 'dw plh') for l in body]
-        yield pair(['m\tmacro'] + body + ['\tendm', '\tm', '\tdb 9'], hb + ['\tdb 9'], 'side-effect/' + tag)
-        yield pair(['\trept 1'] + body + ['\tendm', '\tdb 9'], hb + ['\tdb 9'], 'side-effect-rept/' + tag)
+        yield pair(['m\tmacro'] + body + ['\tendm', '\tm'] + tail, hb + tail, 'side-effect/' + tag)
+        yield pair(['\trept 1'] + body + ['\tendm'] + tail, hb + tail, 'side-effect-rept/' + tag)
 
 
 def subspaces(tier):
